@@ -136,7 +136,7 @@ Theorem C14_hmc_squeeze_refuted :
     shape1 (row_get_parameter theta 0 burn thin) = [1].
 Proof. exact hmc_squeeze_refuted. Qed.
 
-(* D26: HamiltonianChain.get_sample is 1-D when no sample is left *)
+(* D28: HamiltonianChain.get_sample is 1-D when no sample is left *)
 Theorem C14_hmc_empty_sample_refuted :
   exists theta burn thin,
     hmc_get_sample_shape_pinned 2 (row_get_sample theta burn thin) = [0] /\
